@@ -6,7 +6,7 @@
                         + #live fidRefs whose parent is r + #live xattr fidRefs borrowing r,
     every counted reference points at an existing fidRef, one table entry per key. *)
 From Coq Require Import List Arith Bool ZArith.
-From P9V Require Import Refs.Model Refs.PathFS Refs.Cases Refs.RefProofs Refs.RefStep Refs.FenceProofs.
+From P9V Require Import Refs.Model Refs.PathFS Refs.Cases Refs.RefProofs Refs.RefStep Refs.LifeProofs Refs.LifeStep Refs.FenceProofs.
 Import ListNotations.
 
 (** C05_inv: for every history of requests from the initial state and every backend, the reference-count
@@ -14,7 +14,7 @@ Import ListNotations.
 Theorem C05_inv : forall B bstep ops (b : B),
   let s := snd (run B bstep ops (init_state B b)) in
   RefInv B s /\ (s_panic B s = false -> s_held B s = []).
-Proof. exact history_inv. Qed.
+Proof. exact RefStep.history_inv. Qed.
 Print Assumptions C05_inv.
 
 (** ... preserved by every single request from any state satisfying it (all 20 request kinds, incl.
@@ -23,7 +23,7 @@ Print Assumptions C05_inv.
     is left as found (more only if a panic was flagged) *)
 Theorem C05_inv_step : forall B bstep o s d,
   RefInvD B s d -> RefInvD B (snd (step B bstep o s)) d /\ led B [] [] s (snd (step B bstep o s)).
-Proof. intros B bstep o s d H. apply (step_ok B bstep o s d H). intros x []. Qed.
+Proof. intros B bstep o s d H. apply (RefStep.step_ok B bstep o s d H). intros x []. Qed.
 Print Assumptions C05_inv_step.
 
 (** The DecRef cascade pays exactly one owed reference [r] and never runs out of fuel: each
@@ -39,6 +39,66 @@ Print Assumptions C05_cascade.
 Theorem C05_fuel_suffices : forall B s, live_count B s < fuel_of B s.
 Proof. exact fuel_enough. Qed.
 Print Assumptions C05_fuel_suffices.
+
+(** [KInv] (Refs/LifeProofs.v): every handle the backend returned is owned by exactly one fidRef (xattr
+    fidRefs borrow their origin's File and are younger than it), live owners' Files are not closed, dead
+    owners' Files are closed, the Close calls in the log are pairwise different, every returned handle is
+    owned or closed.  It holds, with [RefInv], after every history, for every backend: *)
+Theorem C05_life_inv : forall B bstep ops (b : B),
+  let s := snd (run B bstep ops (init_state B b)) in
+  RefInv B s /\ KInv B s None /\ wf_log (s_log B s) /\ (s_panic B s = false -> s_held B s = []).
+Proof. exact history_life. Qed.
+Print Assumptions C05_life_inv.
+
+(** C05_closed_once: for every history and backend, no File is closed twice *)
+Theorem C05_closed_once : forall B bstep ops (b : B) h,
+  close_count h (s_log B (snd (run B bstep ops (init_state B b)))) <= 1.
+Proof.
+  intros B bstep ops b h. destruct (history_life B bstep ops b) as (_ & K & _ & _). exact (closed_once B _ None h K).
+Qed.
+Print Assumptions C05_closed_once.
+
+(** C05_closed_iff_unreferenced: for every history and backend, a handle has been closed iff it was
+    returned by the backend and no live fidRef owns it (its owner's count reached 0) *)
+Theorem C05_closed_iff_unreferenced : forall B bstep ops (b : B) h,
+  let s := snd (run B bstep ops (init_state B b)) in
+  closed B s h <->
+  h < s_nexth B s /\ forall r, r < len B s -> owner (get_ref B s r) -> fr_file (get_ref B s r) = h -> live (get_ref B s r) = false.
+Proof.
+  intros B bstep ops b h. cbv zeta. destruct (history_life B bstep ops b) as (_ & K & _ & _).
+  exact (closed_iff_no_live_owner B _ h K).
+Qed.
+Print Assumptions C05_closed_iff_unreferenced.
+
+(** PARTIAL: C05_disconnect.  For every history and backend after which no fid is bound any more (every
+    connection stopped) and no panic was flagged: every handle ever returned is closed EXACTLY once -
+    under the hypothesis [ordered]: the parent of every live fidRef has a smaller id.  [ordered] holds
+    by construction as long as no rename re-parents a fidRef under a younger one; deriving it for all
+    histories needs assumption B2 (no move of a directory into its own subtree) and the tree invariant
+    and is NOT proved (without it parent links may be cyclic and Files leak).  Also not proved here:
+    that OStop of a connection removes all of its table entries (by inspection of [stop_loop]). *)
+Theorem C05_disconnect_partial : forall B bstep ops (b : B),
+  let s := snd (run B bstep ops (init_state B b)) in
+  s_fids B s = [] -> s_panic B s = false -> ordered B s ->
+  forall h, h < s_nexth B s -> close_count h (s_log B s) = 1.
+Proof.
+  intros B bstep ops b. cbv zeta. destruct (history_life B bstep ops b) as (I & K & _ & H). intros EF EP Ord.
+  exact (all_closed_exactly_once B _ I K EF (H EP) Ord).
+Qed.
+Print Assumptions C05_disconnect_partial.
+
+(** PARTIAL: C05_no_use_after_close, for every history and backend, for every File method except Renamed:
+    in the backend call log (newest first) no call to the left of a Close uses the closed handle - as
+    the File it is invoked on or as a File argument (Link target, RenameAt directory).  Missing: the
+    Renamed notifications ([uses (BRenamed ..) = []]): that the fidRefs notifyNameChange finds registered
+    in the path tree are live is part of the tree invariant (C08_tree_inv), which is not proved. *)
+Theorem C05_no_use_after_close_partial : forall B bstep ops (b : B) l1 h l2 c,
+  s_log B (snd (run B bstep ops (init_state B b))) = l1 ++ BClose h :: l2 -> In c l1 -> ~ In h (uses c).
+Proof.
+  intros B bstep ops b l1 h l2 c E. destruct (history_life B bstep ops b) as (_ & _ & W & _). rewrite E in W.
+  exact (wf_log_no_use_after_close l1 h l2 c W).
+Qed.
+Print Assumptions C05_no_use_after_close_partial.
 
 (** PARTIAL: C05_error_paths for one walk component (walkOne, all of its error paths, both walk
     flavours, wrong QID count): a failing walkOne leaves no File behind - either no handle was
@@ -62,5 +122,5 @@ Definition c05_sample : list op :=
 Example C05_sample_ok :
   let s := snd (run pfs pfs_step c05_sample (init_state pfs (pfs_init false []))) in
   s_oof pfs s = false /\ s_panic pfs s = false /\ s_held pfs s = [] /\
-  lifecycle_ok [] (rev (s_log pfs s)) = true /\ all_closed_once (s_nexth pfs s) (s_log pfs s) = true /\ s_nexth pfs s = 4.
+  lifecycle_ok [] (rev (s_log pfs s)) = true /\ all_closed_once (s_nexth pfs s) (s_log pfs s) = true /\ s_nexth pfs s = 4 /\ s_fids pfs s = [].
 Proof. vm_compute. repeat split; reflexivity. Qed.
